@@ -162,15 +162,17 @@ void multi_thread() {
     int act[3] = {0, 0, 0}, quota[3] = {0, 0, 0};
     for (int i = 0; i < ns; i++) if (kind[i] == 1 && !kick[i]) { act[i] = dsim::choose(3); quota[i] = 1 + dsim::choose(3); }
     unsigned batches = dsim::flip() ? dsim::choose(256) << 1 : 0;
+    bool at_pos[3] = {false, false, false}; for (int i = 0; i < ns; i++) at_pos[i] = dsim::choose(4) == 3 && kind[i] != 3;      // (not for polled readers: next_ready()==false does not tell 'position not retained' from 'nothing new', they would read on)
     bool destroy = dsim::flip();
     dsim::plan_note("threads max=%s%zu min=%zu publishes=%d batches=%x destroy=%d", unlimited ? "unlimited/" : "", maxq, minq, npub, batches, (int)destroy);
-    for (int i = 0; i < ns; i++) dsim::plan_note(" R%d:kind%d,%s%s%s", i, kind[i], mode_name(mode[i]), kick[i] ? ",kicked" : "", act[i] == 1 ? ",leaves" : act[i] == 2 ? ",copies" : "");
+    for (int i = 0; i < ns; i++) dsim::plan_note(" R%d:kind%d,%s%s%s%s", i, kind[i], mode_name(mode[i]), kick[i] ? ",kicked" : "", act[i] == 1 ? ",leaves" : act[i] == 2 ? ",copies" : "", at_pos[i] ? ",at-position" : "");
     auto pub = unlimited ? std::make_unique<Pub>() : std::make_unique<Pub>(maxq, minq);
     std::unique_ptr<Sub> subs[3];
     std::vector<std::thread> th;
     for (int i = 0; i < ns; i++) th.emplace_back([&, i] {
         dsim::cell_set(RD_SUBPOS_LO + i, dsim::cell_get(PUBLISHED));
-        subs[i] = std::make_unique<Sub>(*pub, mode[i]);
+        if (at_pos[i]) subs[i] = std::make_unique<Sub>(*pub, (std::size_t)dsim::cell_get(RD_SUBPOS_LO + i), mode[i]);     // subscribe at an explicit position: right after the newest value this thread knows of
+        else subs[i] = std::make_unique<Sub>(*pub, mode[i]);
         Sub &s = *subs[i];
         dsim::event("subscribed", i, (long)s.position());
         vs::cell_set_hb(RD_SUBPOS_HI + i, dsim::cell_get(PUB_STARTED) + 1);     // publishes STARTED when subscribe returned (+1: marks "set")
@@ -224,7 +226,8 @@ void multi_thread() {
             long v = dsim::cell_get(RD_LOG + 200 * i + (int)k);
             if (v < 1 || v > P) dsim::fail("C16.phantom_value", "reader %d received %ld, published 1..%ld", i, v, P);
             if (mode[i] == ST::all_values) {
-                if (k == 0) { if (v < lo + 1 || v > hi + 1) dsim::fail("C16.gap", "all_values reader %d subscribed between positions %ld and %ld but its first value is %ld", i, lo, hi, v); }
+                if (k == 0 && at_pos[i]) { if (v != lo + 1) dsim::fail("C16.gap", "all_values reader %d subscribed at position %ld but its first value is %ld", i, lo, v); }
+                else if (k == 0) { if (v < lo + 1 || v > hi + 1) dsim::fail("C16.gap", "all_values reader %d subscribed between positions %ld and %ld but its first value is %ld", i, lo, hi, v); }
                 else if (v != prev + 1) dsim::fail(v <= prev ? "C16.duplicate" : "C16.gap", "all_values reader %d received %ld after %ld", i, v, prev);
             } else if (v < prev) dsim::fail("C16.not_forward", "%s reader %d received %ld after %ld", mode_name(mode[i]), i, v, prev);
             prev = v;
@@ -232,7 +235,7 @@ void multi_thread() {
         if (!dsim::cell_get(RD_EOS + i)) dsim::fail("C16.close_did_not_wake", "reader %d never saw end-of-stream", i);
         // after close every value published before the close and still retained is delivered: an all_values reader that
         // could not have been more than max behind must end exactly at P
-        if (mode[i] == ST::all_values && !dsim::cell_get(RD_KICKED + i) && !dsim::cell_get(RD_LEFT + i)) {
+        if (mode[i] == ST::all_values && !dsim::cell_get(RD_KICKED + i) && !dsim::cell_get(RD_LEFT + i) && !(at_pos[i] && n == 0)) {     // (a reader positioned explicitly ends at once when its position is no longer retained: only min items certainly are)
             long first_pos = n ? dsim::cell_get(RD_LOG + 200 * i) - 1 : lo;          // earliest possible subscription point
             bool could_lag = !unlimited && P - first_pos > (long)maxq;
             bool complete = n ? prev == P : hi >= P;                                   // read nothing: fine only if it may have subscribed at the very end
